@@ -65,7 +65,7 @@ func TestC19Driver(t *testing.T) {
 			}
 			s.Star = rapid.SampledFrom([]int{-1, -1, 0, 1, 2}).Draw(t, "star")
 			s.Bad = rapid.SampledFrom([]string{"", "", "", "", "table", "column", "not-select", "syntax"}).Draw(t, "bad")
-			s.Plan = rapid.SampledFrom([]string{"all", "all", "close", "cancel", "cancel-async", "corrupt", "truncate"}).Draw(t, "plan")
+			s.Plan = rapid.SampledFrom([]string{"all", "all", "close", "cancel", "cancel-async", "corrupt", "truncate", "prepared"}).Draw(t, "plan")
 			s.K = rapid.IntRange(0, 12).Draw(t, "k")
 			s.Yields = rapid.IntRange(0, 50).Draw(t, "yields")
 			s.Corrupt = rapid.IntRange(0, 1000).Draw(t, "corrupt")
@@ -213,6 +213,10 @@ func run(r *vt.Run, t vt.TB, s spec) {
 		r.Harness(t, "sql.Open: %v", err)
 	}
 	defer db.Close()
+	if s.Plan == "prepared" {
+		runPrepared(r, t, s, db, path, query, want, wantErr, before)
+		return
+	}
 	ctx, cancel := context.WithCancel(context.Background())
 	defer cancel()
 	rows, qerr := db.QueryContext(ctx, query)
@@ -323,6 +327,85 @@ func run(r *vt.Run, t vt.TB, s spec) {
 	if (st.Shared.Type != "none" && st.Shared.Pid == me) || (st.Pending.Type != "none" && st.Pending.Pid == me) {
 		r.Violation(t, s, "lock-left-behind", "%s (plan %s after %d rows): this process still holds %s after rows.Close", query, s.Plan, consumed, st)
 		return
+	}
+}
+
+// runPrepared: a prepared statement outlives its result sets: close the first
+// one after K rows (the lock must be gone while the statement stays open),
+// then run the statement again completely.
+func runPrepared(r *vt.Run, t vt.TB, s spec, db *sql.DB, path, query string, want [][]interface{}, wantErr error, before int) {
+	stmt, err := db.Prepare(query)
+	if err != nil {
+		if wantErr == nil {
+			r.Violation(t, s, "spurious-error", "%s: Prepare fails: %v", query, err)
+		}
+		return
+	}
+	defer stmt.Close()
+	me := os.Getpid()
+	for round := 0; round < 2; round++ {
+		rows, err := stmt.Query()
+		var got [][]interface{}
+		surfaced := err
+		if err == nil {
+			cols, _ := rows.Columns()
+			for rows.Next() {
+				dest := make([]interface{}, len(cols))
+				ptrs := make([]interface{}, len(cols))
+				for i := range dest {
+					ptrs[i] = &dest[i]
+				}
+				if err := rows.Scan(ptrs...); err != nil {
+					surfaced = err
+					break
+				}
+				got = append(got, dest)
+				if round == 0 && len(got) == s.K {
+					break
+				}
+			}
+			if err := rows.Err(); err != nil && surfaced == nil {
+				surfaced = err
+			}
+			rows.Close()
+		}
+		// the result set is closed, the statement (and its handle) is not: no lock may remain
+		st, perr := probe.Probe(path)
+		if perr != nil {
+			r.Harness(t, "probe: %v", perr)
+		}
+		if (st.Shared.Type != "none" && st.Shared.Pid == me) || (st.Pending.Type != "none" && st.Pending.Pid == me) {
+			r.Violation(t, s, "lock-left-behind", "%s (prepared statement, round %d, %d rows read): rows.Close returned, this process still holds %s", query, round, len(got), st)
+			return
+		}
+		// (the producer signals Close just before it returns: give it a moment to be gone)
+		deadline := time.Now().Add(5 * time.Second)
+		for producerGoroutines() > before {
+			if time.Now().After(deadline) {
+				r.Violation(t, s, "goroutine-leak", "%s (prepared statement, round %d): a producer goroutine is still running 5 s after rows.Close returned", query, round)
+				return
+			}
+			time.Sleep(2 * time.Millisecond)
+		}
+		for i := range got {
+			if i >= len(want) || renderAny(got[i]) != renderAny(want[i]) {
+				r.Violation(t, s, "row-differs", "%s (prepared statement, round %d): row %d is %s, natively %v", query, round, i, renderAny(got[i]), i < len(want))
+				return
+			}
+		}
+		stopped := round == 0 && s.K > 0 && len(got) == s.K
+		if wantErr != nil && surfaced == nil && !stopped {
+			r.Violation(t, s, "error-not-surfaced", "%s (prepared statement, round %d): the native API fails (%v), database/sql reports nothing after %d rows", query, round, wantErr, len(got))
+			return
+		}
+		if wantErr == nil && surfaced != nil {
+			r.Violation(t, s, "spurious-error", "%s (prepared statement, round %d): %v", query, round, surfaced)
+			return
+		}
+		if wantErr == nil && !stopped && len(got) != len(want) {
+			r.Violation(t, s, "silently-short", "%s (prepared statement, round %d): %d of %d rows", query, round, len(got), len(want))
+			return
+		}
 	}
 }
 
